@@ -42,6 +42,7 @@ EXTRA_MODULES = {
     "C09": ["Tie.Dedisperse", "Tie.Subband", "Kernels.Dedisperse", "Kernels.Subband", "Kernels.RollBlock", "Kernels.DmtBlock", "Tie.DmLaw"],
     "C10": ["Tie.Moments"],
     "C11": ["Tie.Plan", "Tie.Fold", "Kernels.Fold"],
+    "C12": ["Tie.FftLengths"],
     "C13": ["Tie.TemplatePrep"],
     "C14": ["Kernels.Downsample1d", "Kernels.Downsample2d", "Tie.FilterGeom"],
     "C16": ["Kernels.MaskChannels", "Tie.StateMachines"],
